@@ -168,9 +168,7 @@ __CPROVER_ensures(list->length == (OLD(list->length) > 0 ? OLD(list->length) - 1
     __CPROVER_requires(ENF(f) ==> g_name_off <= g_doc_len && AT_OFF((node)->name.ptr, g_name_off))                      \
     __CPROVER_requires(IN_DOC((node)->name))                                                                            \
     __CPROVER_requires((node)->parser->error == 0)
-#define XML_SCRATCH_FRAME(p)                                                                                           \
-    __CPROVER_assigns(__CPROVER_object_upto((uint8_t *)(p)->attributes, sizeof((p)->attributes)))                       \
-    __CPROVER_assigns(__CPROVER_object_upto((uint8_t *)(p)->split_scratch, sizeof((p)->split_scratch)))
+#define XML_SCRATCH_FRAME(p)
 
 /* ------------------------------------------------------------------ what a user callback may do (DESIGN 4.6) - ASSUMED for
  * user code, and checked against a sample callback that takes every legal action (unit xml_callback_model):
